@@ -272,20 +272,31 @@ def compute(tier):
                     failed.setdefault(f["path"] + "/safety", []).append("verus reports the function as not verified")
         # thorough: retry failed obligations with other seeds and a doubled rlimit -> unstable => tool error
         unstable = []
-        if tier == "thorough" and failed:
+        seeds_run = [seed]
+        if tier == "thorough":
+            # two more solver seeds with a doubled resource limit, whether or not anything failed: an obligation refuted under
+            # one seed and discharged under another is unstable (undecided, never an alarm); so is one discharged here and
+            # refuted under another seed
             still = None
+            ever = set()
             for k in (1, 2):
                 alt = run_verus(os.path.join(cdir, "woven.rs"),
                                 ["--smt-option", "smt.random_seed=%d" % (seed + k), "--rlimit", "1600"])
                 f2, _, _ = map_diags(meta, alt["diags"], "woven.rs")
                 if alt["out"] is None:
                     # the retry did not run: it says nothing about stability
-                    tool.append("retry with another seed produced no result json: %s" % alt["stderr_tail"][-300:])
+                    tool.append("run with another seed produced no result json: %s" % alt["stderr_tail"][-300:])
                     f2 = dict(failed)
+                seeds_run.append(seed + k)
                 still = set(f2) if still is None else (still & set(f2))
+                ever |= set(f2)
             for oid in list(failed):
                 if oid not in still:
                     unstable.append(oid)
+            for oid in sorted(ever - set(failed)):
+                unstable.append(oid)
+                failed.setdefault(oid, []).append("refuted only under another solver seed")
+        res["seeds_run"] = seeds_run
         # thorough: self-test of rule R11w - every labelled `for` loop desugared the way Verus desugars it must give
         # exactly the same verdicts as the `for` form
         forced = None
@@ -595,6 +606,7 @@ def main():
                                 "witness_result": k.get("witness_result")} for k in kf_lines],
         "witness_replays": r.get("witnesses"),
         "r11w_selftest": r.get("r11w_selftest") or "thorough tier only",
+        "solver_seeds_run": r.get("seeds_run") or [int(os.environ.get("VERIF_SEED", "0")) % 100000],
         "kani_crosscheck": r.get("kani") or "not run in this tier (thorough runs all five harnesses; quick runs one only to "
                                             "obtain a counterexample for a failed table obligation)",
         "not_decided_clauses": claim.get("not_decided", []),
